@@ -637,7 +637,11 @@ package larking
 //@   count ends `sh.HandleRPC(ctx, &stats.End{`
 //@   ensures [one-snapshot C12] loads == 1
 //@   ensures [end-after-begin C18] begins == ends
-//@   witness verifWitnessServeHTTP
+//@   assert atcall `sh.HandleRPC(ctx, &stats.End{` #1 [websocket-end-carries-the-handlers-error C18] ptr(pay(arg1), "stats.End").Error == herr
+//@   assert atcall `sh.HandleRPC(ctx, &stats.End{` #2 [end-carries-the-handlers-error C18] ptr(pay(arg1), "stats.End").Error == herr#2
+//@   witness verifWitnessPathAuthoritative
+//@   witness verifWitnessStatsEnd for end-after-begin
+//@   witness verifWitnessWSEndError for end-carries-the-handlers-error
 //@   ghost at "queryParams, err := method.parseQueryParams(r.URL.Query())" pp = params
 //@   cover at "hd, err := s.pickMethodHandler(method.name)" [both-channels] len(queryParams) > 1 && len(pp) > 1
 //@   assert at "hd, err := s.pickMethodHandler(method.name)" [path-params-last C07] len(params) == len(pp) + len(queryParams)
@@ -728,6 +732,7 @@ package larking
 //@   count begins `sh.HandleRPC(ctx, &stats.Begin{`
 //@   count ends `sh.HandleRPC(ctx, &stats.End{`
 //@   ensures [end-after-begin C18] begins == ends
+//@   assert atcall `sh.HandleRPC(ctx, &stats.End{` [end-carries-the-handlers-error C18] ptr(pay(arg1), "stats.End").Error == herr
 //@   callsites `http.Error(` 7
 //@   ensures [handler-or-refusal C15 C08] hcalls == 1 || refusals == 1
 //@   ensures [no-handler-after-refusal C15] refusals == 1 ==> hcalls == 0
